@@ -61,3 +61,9 @@ def boom(*args, **kwargs):
 
 
 SIGNATURE_TARGETS = ['pos2', 'pos3', 'dflt', 'kwonly', 'varpos', 'varkw', 'mixed']
+
+
+def mk(x=None, **kw):
+    """returns a FRESH mutable object per call"""
+    LOG.append(('mk', (repr(x),), ()))
+    return list(x) if x is not None else []
